@@ -75,7 +75,9 @@ void sp_suspend_now(SP *sp) { gh_sn_calls++; gh_sn_count = SP_COUNT(sp); gh_sn_h
 /* promise<int>::operator()(drop | exception_ptr & | int &): resolves the future of the pending call; arbitrary result (0..1 handle) */
 enum { PC_NONE = 0, PC_DROP = 1, PC_EXC = 2, PC_VAL = 3 };
 int gh_pc_calls; int gh_pc_kind; void *gh_pc_this; void *gh_pc_arg; cv_i32 gh_pc_count; cv_i8 *gh_pc_h;
+cv_i8 gh_pc_done_then;          /* the end marker of the record the promise is parked in (_awaiting), at the instant of the resolution */
 #define PC_STUB(kind, arg) gh_pc_calls++; gh_pc_kind = (kind); gh_pc_this = p; gh_pc_arg = (void *)(arg); OWNER_OF(p) = 0; \
+  gh_pc_done_then = ((PT *)((cv_i8 *)p - __builtin_offsetof(PT, _awaiting)))->_done; \
   ret->base_suspend_point._count_flag = gh_pc_count << 1; ((SP *)ret)->f0.f0._handles[0] = gh_pc_h; ret->value = 1;
 #ifdef CV_HAS_pr_call_drop
 void pr_call_drop(SPB *ret, PROM *p, cv_i32 *tag) { PC_STUB(PC_DROP, 0) }
@@ -131,7 +133,7 @@ int gh_pd_calls; void *gh_pd_owner_then;
 void pr_dtor_stub(PROM *p) { gh_pd_calls++; gh_pd_owner_then = (void *)OWNER_OF(p); }
 #endif
 #define STUB_GHOSTS gh_res_calls, gh_res_frame, gh_res_caller, gh_res_int_fn, gh_res_int_ctx, gh_res_block, gh_res_awaiting, gh_res_handed_back, gh_wait_calls, gh_wait_after_resume, gh_wait_order, gh_wait_old, gh_wait_flag, \
-  gh_notify_calls, gh_notify_value, gh_awr_calls, gh_awr_this, gh_awr_caller_then, gh_awr_arg_then, gh_sn_calls, gh_sn_count, gh_sn_h, gh_pc_calls, gh_pc_kind, gh_pc_this, gh_pc_arg, \
+  gh_notify_calls, gh_notify_value, gh_awr_calls, gh_awr_this, gh_awr_caller_then, gh_awr_arg_then, gh_sn_calls, gh_sn_count, gh_sn_h, gh_pc_calls, gh_pc_kind, gh_pc_this, gh_pc_arg, gh_pc_done_then, \
   gh_ubf_calls, gh_ubf_this, gh_ns_calls, gh_ns_this, gh_na_calls, gh_na_this, gh_na_caller, gh_na_fn_then, gh_na_h_then, gh_chv_calls, gh_chv_frame, gh_chv_after_na, gh_nf_calls, gh_nf_ret, gh_nf_this, gh_nf_arg_then, \
   gh_nb_calls, gh_nb_owner, gh_nb_state_then, gh_nb_after_value, gh_gv_calls, gh_gv_this, gh_destroy_calls, gh_destroy_frame, gh_lam_calls, gh_lam_this, gh_lam_owner_then, gh_pd_calls, gh_pd_owner_then, \
   gh_ap_ops, gh_ep_addref, gh_ep_release, cv_exc_pending, cv_exc_obj, cv_exc_tinfo
@@ -221,7 +223,10 @@ __CPROVER_assigns(this_->_done)
 __CPROVER_ensures(cv_exc_pending == 0 && this_->_done == 1 && NO_ALLOC)
 ;
 #endif
-/* unhandled_exception(): stores THE exception in flight (the one the coroutine's catch-all handler holds); not the end marker */
+/* unhandled_exception(): stores THE exception in flight (the one the coroutine's catch-all handler holds).  It must NOT set the end marker:
+ * the consumer distinguishes "an item (value or exception) is available" from "end" by that marker, so an exception stored together with
+ * the end marker would be dropped by every style instead of surfacing at its position.  The end marker follows when the exception is
+ * handed over (gen_value / unblock_future below). */
 #ifdef CV_HAS_pt_unhandled_exception
 void *gh_exc_in_flight;
 void pt_unhandled_exception(PT *this_)
@@ -307,16 +312,22 @@ __CPROVER_ensures(cv_exc_pending == 0 && BLOCK_OF(this_) == 1 && gh_notify_calls
 #endif
 /* unblock_future() (R4): exactly one resolution of the pending call's promise: end -> drop, stored exception -> that exception,
  * otherwise the yielded object; what that resolution made ready is passed on unchanged.
+ * After-exception clause (from the property: the values, the exception at its position, then the sequence is OVER - "a single
+ * end-of-sequence indication", whichever style): handing the stored exception over is the last item of the sequence, so the record
+ * must say "finished" from that moment on - and already at the instant the promise is resolved, because the consumer may look at once
+ * (from another thread).  An end or a value leaves the end marker alone.
  * Hand-over invariant (precondition): the record describes an end, an exception or a value. */
 #ifdef CV_HAS_pt_unblock_future
 void pt_unblock_future(SP *ret, PT *this_)
 __CPROVER_requires(G_PRE && STUBS_FRESH && __CPROVER_is_fresh(ret, sizeof(*ret)) && __CPROVER_is_fresh(this_, sizeof(*this_)) && this_->_done <= 1 && gh_pc_count <= 1 && gh_pc_h != 0)
 __CPROVER_requires(this_->_done == 1 || EXC_OBJ(this_->_exp) != 0 || this_->_ret != 0)
-__CPROVER_assigns(__CPROVER_object_whole(ret), this_->_awaiting, STUB_GHOSTS)
+__CPROVER_assigns(__CPROVER_object_whole(ret), this_->_awaiting, this_->_done, STUB_GHOSTS)
 __CPROVER_ensures(cv_exc_pending == 0 && gh_pc_calls == 1 && gh_pc_this == (void *)&this_->_awaiting)
-__CPROVER_ensures(this_->_done == 1 ==> gh_pc_kind == PC_DROP)
-__CPROVER_ensures((this_->_done == 0 && EXC_OBJ(this_->_exp) != 0) ==> (gh_pc_kind == PC_EXC && gh_pc_arg == (void *)&this_->_exp))     /* the exception wins over a stale value */
-__CPROVER_ensures((this_->_done == 0 && EXC_OBJ(this_->_exp) == 0) ==> (gh_pc_kind == PC_VAL && gh_pc_arg == (void *)this_->_ret))
+__CPROVER_ensures(__CPROVER_old(this_->_done) == 1 ==> gh_pc_kind == PC_DROP)
+__CPROVER_ensures((__CPROVER_old(this_->_done) == 0 && EXC_OBJ(this_->_exp) != 0) ==> (gh_pc_kind == PC_EXC && gh_pc_arg == (void *)&this_->_exp))     /* the exception wins over a stale value */
+__CPROVER_ensures((__CPROVER_old(this_->_done) == 0 && EXC_OBJ(this_->_exp) == 0) ==> (gh_pc_kind == PC_VAL && gh_pc_arg == (void *)this_->_ret))
+__CPROVER_ensures((__CPROVER_old(this_->_done) == 0 && EXC_OBJ(this_->_exp) != 0) ==> (gh_pc_done_then == 1 && this_->_done == 1))   /* C13-FINDING-after-exception: the exception handed to the call future is the last item - the generator is finished and says so, before the consumer can look */
+__CPROVER_ensures((__CPROVER_old(this_->_done) == 1 || EXC_OBJ(this_->_exp) == 0) ==> (this_->_done == __CPROVER_old(this_->_done) && gh_pc_done_then == __CPROVER_old(this_->_done)))   /* an end or a value does not touch the end marker */
 __CPROVER_ensures(SP_COUNT(ret) == gh_pc_count && (ret->_count_flag & 1) == 0 && (gh_pc_count == 1 ==> SP_H(ret, 0) == gh_pc_h) && gh_sn_calls == 0)
 __CPROVER_ensures(NO_ALLOC)
 ;
@@ -433,15 +444,23 @@ __CPROVER_assigns(__CPROVER_object_whole(ret))
 __CPROVER_ensures(cv_exc_pending == 0 && NAWT_OWNER(ret) == this_ && NAWT_STATE(ret) == 0 && ((AWT *)ret)->_next == 0 && NO_ALLOC)
 ;
 #endif
-/* value() (R3): the stored exception is rethrown - that very exception; else the object of the last co_yield; else value_not_ready */
+/* value() (R3): the stored exception is rethrown - that very exception; else the object of the last co_yield; else value_not_ready.
+ * After-exception clause (from the property): the rethrow is the moment the body's exception surfaces in the next()/value(), iterator
+ * and co_await next() styles; it is the last item of the sequence, so from then on the record says "finished" (done(), operator bool,
+ * and every later next() then give the regular end indication).  Reading a value or finding none leaves the end marker alone.
+ * (The clause belongs to C13; the C20 re-run of this unit checks the no-allocation clause only.) */
 #ifdef CV_HAS_gen_value
 cv_i32 *gen_value(GEN *this_)
-__CPROVER_requires(G_PRE && this_ == gh_gen && GEN_P(this_) == gh_pt)
+__CPROVER_requires(G_PRE && this_ == gh_gen && GEN_P(this_) == gh_pt && gh_pt->_done <= 1)
 __CPROVER_requires(EXC_OBJ(gh_pt->_exp) == 0 || __CPROVER_r_ok((cv_i8 *)EXC_OBJ(gh_pt->_exp) - 16, 16))      /* a thrown object carries its type header (lib/rt_core.c) */
-__CPROVER_assigns(cv_exc_pending, cv_exc_obj, cv_exc_tinfo, gh_ep_addref, gh_ep_release)
+__CPROVER_assigns(cv_exc_pending, cv_exc_obj, cv_exc_tinfo, gh_ep_addref, gh_ep_release, gh_pt->_done)
 __CPROVER_ensures(EXC_OBJ(gh_pt->_exp) != 0 ==> (cv_exc_pending == 1 && cv_exc_obj == (void *)EXC_OBJ(gh_pt->_exp)))
 __CPROVER_ensures((EXC_OBJ(gh_pt->_exp) == 0 && gh_pt->_ret != 0) ==> (cv_exc_pending == 0 && __CPROVER_return_value == gh_pt->_ret))
 __CPROVER_ensures((EXC_OBJ(gh_pt->_exp) == 0 && gh_pt->_ret == 0) ==> THROWN(TI_VALUE_NOT_READY))
+#ifndef CV_CHECK_C20
+__CPROVER_ensures(EXC_OBJ(gh_pt->_exp) != 0 ==> gh_pt->_done == 1)   /* C13-FINDING-after-exception: once the body's exception has surfaced the sequence is over - the generator is finished and says so */
+#endif
+__CPROVER_ensures(EXC_OBJ(gh_pt->_exp) == 0 ==> gh_pt->_done == __CPROVER_old(gh_pt->_done))
 __CPROVER_ensures(gh_ep_addref - __CPROVER_old(gh_ep_addref) == gh_ep_release - __CPROVER_old(gh_ep_release))   /* the local copy of the exception_ptr is released */
 __CPROVER_ensures(NO_ALLOC)
 ;
